@@ -176,6 +176,9 @@ func (t *State) SetTimerTaskMG(timerTaskMgr timerTask.TimerManager) {
 
 // 选择足够金额的utxo
 func (t *State) SelectUtxos(fromAddr string, totalNeed *big.Int, needLock, excludeUnconfirmed bool) ([]*protos.TxInput, [][]byte, *big.Int, error) {
+	// 区块执行/walk期间(持有写锁)未确认交易被临时回滚, 此时选出的utxo可能是即将被恢复的未确认交易已经花掉的
+	t.utxo.Mutex.RLock()
+	defer t.utxo.Mutex.RUnlock()
 	return t.utxo.SelectUtxos(fromAddr, totalNeed, needLock, excludeUnconfirmed)
 }
 
@@ -193,6 +196,8 @@ func (t *State) QueryUtxoRecord(accountName string, displayCount int64) (*pb.Utx
 }
 
 func (t *State) SelectUtxosBySize(fromAddr string, needLock, excludeUnconfirmed bool) ([]*protos.TxInput, [][]byte, *big.Int, error) {
+	t.utxo.Mutex.RLock()
+	defer t.utxo.Mutex.RUnlock()
 	return t.utxo.SelectUtxosBySize(fromAddr, needLock, excludeUnconfirmed)
 }
 
